@@ -288,6 +288,8 @@ def policy_script(q, i, seed, mode):
         tun["useXFF"] = ", ".join(ADDR_TEXT[x["text"]] for x in q["xff"])
         if not tokenAuth:
             tun["mintXFF"] = tun.get("mintXFF", "")
+        elif h % 3 == 0:
+            tun["carryCookie"] = True   # the tunnel request comes with the downloading browser's session cookie
     caps = 2 if tokenAuth else 0
     cls = "valid"
     if mode == "host" and h % 19 == 0:
@@ -396,6 +398,13 @@ def gen_c16_scripts(tier, seed):
                     "badcookie": (H_A, [hs, {"k": "create", "cls": "valid", "cookie": "bad"}, auth]),
                     "repeat": (H_A, [hs, hs]),
                     "closeearly": (H_A, [hs, good, auth, {"k": "close"}]),
+                    # every step refused because it comes in the wrong phase: each refusal is a well-formed response of its own type
+                    "createfirst": (H_A, [good]),
+                    "createtwice": (H_A, [hs, good, good]),
+                    "authfirst": (H_A, [auth]),
+                    "chanfirst": (H_A, [{"k": "chan", "cls": "valid", "name": ["H1"], "port": "PA"}]),
+                    "chanearly": (H_A, [hs, good, {"k": "chan", "cls": "valid", "name": ["H1"], "port": "PA"}]),
+                    "authtwice": (H_A, [hs, good, auth, auth]),
                 }
                 # the same accepted exchange once more after every kind of refusal happened on this gateway
                 # instance: what a tunnel is answered must not depend on what other tunnels did before it
@@ -431,4 +440,15 @@ def gen_cookie_scripts(tier, seed):
                                  {"k": "auth", "cls": "valid"}, {"k": "chan", "cls": "valid", "name": ["H1"], "port": "PA"}]
                         scripts.append({"id": "k%05d-%s" % (n, kind), "origin": "cookie:%s" % kind, "cfg": cfg, "transport": tr, "tun": dict(H_A, user="user1"), "steps": steps})
                         n += 1
+    # a cookie that is still acceptable (inside the leeway) when the connection is opened and has left the leeway when it
+    # is presented on that connection 26 s later - and, for comparison, one presented right away
+    cfg = {"tokenAuth": True, "smartCard": False, "auth": "openid", "sel": "roundrobin", "hosts": [["H1", ":", "PA"]], "verifyIp": True, "idle": 0}
+    for tr in ("ws", "legacy"):
+        for idle in (0, 26000):
+            steps = [{"k": "hs", "cls": "valid", "caps": 2, "major": 1, "minor": 0}]
+            if idle:
+                steps.append({"k": "idle", "ms": idle})
+            steps += [{"k": "create", "cls": "valid", "cookie": "ageing"}, {"k": "auth", "cls": "valid"}]
+            scripts.insert(0, {"id": "k%05d-ageing%d" % (n, idle), "origin": "cookie:ageing", "cfg": dict(cfg, idle=1 + idle // 1000 + (0 if tr == "ws" else 100)), "transport": tr, "tun": dict(H_A, user="user1"), "steps": steps})
+            n += 1
     return scripts
